@@ -541,6 +541,14 @@ def _gen_spec_once(rng, pf):
                     values[p["name"]][pop] = {"a": _gen_duration(rng, dt, vclass)}
                 else:
                     values[p["name"]][pop] = _gen_series(rng, pf, p["format"], vclass, years)
+    # a timed duration may be defined by a (time-constant) function while the databook still holds a value for it: the function
+    # value is the duration in force (bins are sized from it), not the databook number
+    for p in pars:
+        if p["timed"] and p["db"] and p["function"] is None and rng.random() < 0.15:
+            d0 = float(values[p["name"]][pops[0]]["a"])
+            d1 = _f(d0 * float(_choice(rng, [0.5, 1.5, 2.0, 3.0])))
+            if d1 > 0:
+                p["function"] = "%r/2+%r/2" % (d1, d1)
     # negative *data* on transition parameters that have neither a function nor a lower limit (a negative transition parameter
     # gives zero flow, never a reverse flow)
     if negative_ok:
@@ -577,6 +585,18 @@ def _gen_spec_once(rng, pf):
             elif p["db"] and (p["timed"] or p["format"] == "duration") and rng.random() < 0.5:
                 yfactors[p["name"]] = {pop: _choice(rng, [0.3, 1.0, 2.5, 4.0]) for pop in pops}  # calibrated durations (also of timed compartments)
 
+    # all-population (meta) calibration factors on parameters and on initial sizes, and population factors on initial sizes
+    meta_yfactors = {}
+    if rng.random() < pf["p_yfactor"]:
+        for p in pars:
+            if p["db"] and not p["timed"] and p["format"] != "duration" and rng.random() < 0.2:
+                meta_yfactors[p["name"]] = _choice(rng, [0.5, 1.5, 2.0])
+        for c in comps:
+            if c["db"] and c["kind"] == "ord" and rng.random() < 0.3:
+                meta_yfactors[c["name"]] = _choice(rng, [0.5, 1.5, 2.0])
+            if c["db"] and c["kind"] == "ord" and rng.random() < 0.3:
+                yfactors[c["name"]] = {pop: _choice(rng, [0.5, 1.0, 2.0, 3.0]) for pop in pops}
+
     for it in interactions:
         it["entries"] = [[a, b, {"a": _choice(rng, [0.0, 1.0, 0.5, _f(rng.uniform(0, 3))])}] for a in pops for b in pops]
     spec = {
@@ -589,6 +609,7 @@ def _gen_spec_once(rng, pf):
         "transfers": transfers,
         "values": values,
         "yfactors": yfactors,
+        "meta_yfactors": meta_yfactors,
         "years": years,
         "settings": {"start": start, "end": _f(end), "dt": dt},
         "meta": {"vclass": vclass, "groups": groups},
@@ -778,6 +799,8 @@ def build_project(spec, fw=None, data=None):
     for par, d in spec.get("yfactors", {}).items():
         for pop, f in d.items():
             ps.pars[par].y_factor[pop] = f
+    for par, f in spec.get("meta_yfactors", {}).items():
+        ps.pars[par].meta_y_factor = f
     return P
 
 
